@@ -193,6 +193,13 @@ func FromLibPayloads(c message.IKEPayloadContainer) ([]model.Payload, error) {
 		}
 		out = append(out, p)
 	}
+	// An Encrypted payload's NextPayload field names the first inner payload only when SK is the last payload
+	// (RFC 7296 3.14); elsewhere it is chain plumbing that the encoder recomputes, so it is not part of the model.
+	for i := range out {
+		if out[i].Raw != nil && out[i].Raw.Type == 46 && i+1 < len(out) {
+			out[i].Data = nil
+		}
+	}
 	return out, nil
 }
 
